@@ -21,7 +21,7 @@ import xeofs as xe
 
 PROP = "C09"
 TAGS = {"C09"}
-INV = ["C09_Descending", "C09_ScfSumsToOne", "C09_CorrelationsGenuine", "C09_FactorDependsOnNAlphaOnly",
+INV = ["C09_ScaleEntersByAlphaPowers", "C09_Descending", "C09_ScfSumsToOne", "C09_CorrelationsGenuine", "C09_FactorDependsOnNAlphaOnly",
        "C10_NamedIsSpecialCase", "C09_McaFactorOne", "Emit"]
 
 
